@@ -206,6 +206,7 @@ func runC32(c *Ctx) {
 		}
 	}
 	c.Floor("teardown-order", 12)
+	teardownSiblingRule(c)
 	// API identity agreement
 	apiTable := func(name string) *Table {
 		f := c.fn("api-identity", "tracing", "", name)
@@ -760,4 +761,113 @@ func receiveAccountedRule(c *Ctx) {
 		}
 	}
 	c.Check(n >= 12, "receive-accounted", "instances", token.NoPos, "TraceReqReceive sites found ("+itoa(n)+")", "only "+itoa(n)+" TraceReqReceive sites found")
+}
+
+// teardownSiblingRule cross-checks the teardown helpers of agents whose in-flight
+// records carry the same lifecycle flag (e.g. the two caches' Transactions[i].Removed):
+// they must agree on whether the teardown conditions its work on that flag. A
+// record that is already retired for the requester can still own open downstream
+// tasks (an eviction write-back, a write-through); a teardown that skips retired
+// records in one sibling but not in the other is wrong in one of them.
+func teardownSiblingRule(c *Ctx) {
+	p := c.P
+	cg := p.ModCG()
+	type use struct {
+		agent string
+		fn    *ssa.Function
+		pos   token.Pos
+	}
+	lifecycle := map[string]bool{"Removed": true, "Completed": true, "Done": true, "Retired": true, "Valid": true}
+	declares := map[string][]string{} // flag -> agents whose State closure has a bool field of that name
+	uses := map[string][]use{}
+	for _, ag := range ctrlAgents {
+		inPkg := func(fn *ssa.Function) bool { return pkgOfFn(fn) == pkgPath(ag.rel) }
+		st := p.LookupType(ag.rel, "State")
+		if st == nil {
+			continue
+		}
+		seenT := map[types.Type]bool{}
+		var walk func(t types.Type, depth int)
+		walk = func(t types.Type, depth int) {
+			if depth > 5 || seenT[t] {
+				return
+			}
+			seenT[t] = true
+			switch u := t.Underlying().(type) {
+			case *types.Struct:
+				for i := 0; i < u.NumFields(); i++ {
+					f := u.Field(i)
+					if b, ok := f.Type().Underlying().(*types.Basic); ok && b.Kind() == types.Bool && lifecycle[f.Name()] {
+						declares[f.Name()] = append(declares[f.Name()], ag.rel)
+					}
+					walk(f.Type(), depth+1)
+				}
+			case *types.Slice:
+				walk(u.Elem(), depth+1)
+			case *types.Map:
+				walk(u.Elem(), depth+1)
+			case *types.Array:
+				walk(u.Elem(), depth+1)
+			}
+		}
+		walk(st.Type(), 0)
+		// teardown closure
+		for _, f := range p.SrcFuncs(func(pp string) bool { return pp == pkgPath(ag.rel) }) {
+			direct := false
+			for _, b := range f.Blocks {
+				for _, in := range b.Instrs {
+					if call, ok := in.(ssa.CallInstruction); ok && isTeardownCallee(call.Common().StaticCallee()) {
+						direct = true
+					}
+				}
+			}
+			if !direct {
+				continue
+			}
+			for g := range cg.Reach([]*ssa.Function{f}, inPkg) {
+				for _, b := range g.Blocks {
+					ifi, ok := b.Instrs[len(b.Instrs)-1].(*ssa.If)
+					if !ok {
+						continue
+					}
+					for v := range DataSlice(g, ifi.Cond) {
+						for name := range lifecycle {
+							if valueReadsField(v, name) {
+								uses[name] = append(uses[name], use{ag.rel, g, ifi.Pos()})
+							}
+						}
+					}
+				}
+			}
+		}
+	}
+	n := 0
+	for flag, agents := range declares {
+		agents = uniqStr(agents)
+		if len(agents) < 2 {
+			continue
+		}
+		n++
+		using := map[string]use{}
+		for _, u := range uses[flag] {
+			using[u.agent] = u
+		}
+		for _, a := range agents {
+			u, does := using[a]
+			var others []string
+			for _, o := range agents {
+				if _, od := using[o]; o != a && !od {
+					others = append(others, o)
+				}
+			}
+			ok := !does || len(others) == 0
+			pos := token.NoPos
+			if does {
+				pos = u.pos
+			}
+			c.Check(ok, "teardown-siblings", a+":"+flag, pos, "the Reset teardown treats retired records like its siblings do",
+				"the Reset teardown of "+a+" conditions its work on the records' "+flag+" flag while the sibling teardown(s) of "+strings.Join(others, ", ")+" visit every record: a record retired for its requester can still own open downstream tasks (eviction write-back, forwarded write), which a Reset in that window leaves started-never-ended")
+		}
+	}
+	c.Check(n >= 1, "teardown-siblings", "instances", token.NoPos, "sibling lifecycle flags found", "no lifecycle flag shared by two agents was found")
 }
